@@ -401,8 +401,16 @@ func runGet(c Case) (o hx.Outcome) {
 		judge(fmt.Sprintf("call %d", k+1), asserted, by, ch, err)
 	}
 
+	reached := true // a healthy store in front answers before the cache is asked at all
+	for _, w := range st.shape {
+		if w == wRouter+"4" || w == wFailover+"2" {
+			reached = false
+		}
+	}
 	if demanded && effective {
 		o.Class("repair:demanded")
+	}
+	if demanded && effective && reached {
 		if obj, ok := lf.stored(id); !ok || !decodesTo(obj, lf.unc, data) {
 			o.Fail("C03:repairable-cache:not-repaired", "after the calls the slot of %s still does not hold the chunk (present=%v, %d bytes) — %s", id.String(), ok, len(obj), where)
 		} else {
@@ -513,4 +521,7 @@ func TestSelf(t *testing.T)    { selfTest(t) }
 func TestEnum(t *testing.T)    { enumTest(t) }
 func TestProp(t *testing.T)    { hx.Prop(t, spec) }
 
-var errHang = errors.New("consumer did not return")
+var (
+	errHang  = errors.New("consumer did not return")
+	errPanic = errors.New("consumer panicked")
+)
